@@ -29,13 +29,13 @@ var commonAssumptions = []string{
 
 var props = map[string]propCfg{
 	"C19": {
-		Require: []string{"reports_checked", "status_calls_checked", "concurrent_status_calls_checked", "concurrent_connection_pairs_relayed", "bytes_relayed_client_to_server", "bytes_relayed_server_to_client", "messages_listed_in_reports", "sessions_with_message_log_switched_off", "upstream_stall_sessions", "upstream_stall_sessions_with_the_upload_held_up"},
+		Require: []string{"reports_checked", "status_calls_checked", "concurrent_status_calls_checked", "concurrent_connection_pairs_relayed", "bytes_relayed_client_to_server", "bytes_relayed_server_to_client", "messages_listed_in_reports", "sessions_with_message_log_switched_off", "upstream_stall_sessions", "upstream_stall_sessions_with_the_upload_held_up", "bulk_uploads", "reports_fetched_while_the_upload_was_held_up"},
 		Race:    true, BinRace: true, QuickBatches: 5, ThoroughBatches: 40, Parallel: 5, Bins: []string{"proxy"}, Level: "exploration", Floor: 20,
 		Rule:        "(a) sessions against the real proxy binary (race detector, built from the current tree) on TCP loopback: the harness is the upstream server, the client and the HTTP poller; 1-3 sequential connections per proxy process and, in every second session, two connections at the same time (relay equality per connection); client->server and server->client streams (up to 64 kB per session) made of valid frames, CRC-valid frames with malformed content (short MSM, oversize masks), hostile mixes, random bytes, and text/frames spelling HTML (<script>, </div>, <img ...>); chunk sizes {1,17,512,4096,random} with 0-2 ms gaps. Oracle: upstream-received = client-sent and client-received = server-sent per connection; the process is alive after every session (a death is reported with its panic/race text; a silent stall is judged from the SIGQUIT goroutine dump, otherwise inconclusive); every /status/report body is matched against the pinned page template and its five traffic-derived parts must contain no raw '<' or '>'; the messages listed (parsed back from their hex dumps) must be at most 20 and a contiguous run, in order, of the same build's sequential framing of the bytes sent so far. the status page is polled continuously while traffic flows. (b) in process: ReportFeed.Status over a 20-message queue and client/server buffers filled from such traffic, same checks plus list length; (c) in process: the queue fed round after round while two goroutines produce status reports and one records buffers, every report checked, a deadlock judged logically. Non-trivial: every session / Status call (all carry mixed traffic). Distinct by hash of the case.",
 		Assumptions: commonAssumptions,
 	},
 	"C16": {
-		Require: []string{"processes_checked", "runs_at_chosen_time_of_day", "runs_with_silent_input"},
+		Require: []string{"processes_checked", "runs_at_chosen_time_of_day", "runs_with_silent_input", "long_sessions_with_event_log"},
 		BinRace: true, QuickBatches: 8, ThoroughBatches: 48, Parallel: 8, Bins: []string{"rtcmlogger"}, Level: "exploration", Floor: 30,
 		Rule:        "the real rtcmlogger binary, built from the current tree with the race detector and the hook overlay, run as a process in a fresh directory: inputs of 0, 1, 2, 100, 5000, 8095, 8096, 8097, 2*8096-1..+1, 3*8096+1, 40 kB, 100 kB (thorough: up to 2 MB) bytes, random / all-zero / text; stdin as a regular file, a pipe written in chunks of 100 / 1000 / 8096 / random size with 0-3 ms gaps, or a pipe closed immediately after one write; GOMAXPROCS in {1,2,16}; hook profiles: none (natural schedule), a 20 ms delay before the recorder's write call, 5 ms before the log write, 3 ms before the recorder's receive, frequent yields. Oracle: process stdout equals stdin byte for byte, and after exit the date-ordered concatenation of rtcmlogger.*.rtcm in the configured directory equals stdin. Non-trivial: non-empty input with a hook profile or piped stdin. Distinct by hash of the case.",
 		Assumptions: commonAssumptions,
